@@ -180,6 +180,16 @@ struct Hist {
 		else { int fd = open(path.c_str(), O_RDONLY); rd = mtbl_reader_init_fd(fd, ro); close(fd); }
 		mtbl_reader_options_destroy(&ro);
 		if (rd) { drive_iters(r, mtbl_reader_source(rd), keys); mtbl_reader_destroy(&rd); }
+		// fault: the kernel refuses the mapping (ENOMEM); the open must fail cleanly, releasing what it had acquired
+		if (r.chance(1, 3)) {
+			sim_mmap_fail_in(1);
+			mtbl_reader *no;
+			if (r.chance(1, 2)) no = mtbl_reader_init(path.c_str(), nullptr);
+			else { int fd = open(path.c_str(), O_RDONLY); no = mtbl_reader_init_fd(fd, nullptr); close(fd); }
+			sim_mmap_fail_in(0);
+			if (no) { res.fail("MODEL", "READER-opened-without-mapping", "mtbl_reader_init returned a reader although mmap failed"); mtbl_reader_destroy(&no); }
+			else { res.faults["mmap-fails"]++; }
+		}
 		// files that do not open as a table
 		std::string junk = dir + "/junk.bin";
 		Bytes jb; size_t jn = r.below(1500); for (size_t i = 0; i < jn; i++) jb.push_back((char)r.below(256));
@@ -233,6 +243,7 @@ struct Hist {
 		mtbl_merger_destroy(&m);
 		for (auto &s : w.srcs) if (s.user && s.us.live_iters != 0) res.fail("LEAK", "ITER-LEAK-user-source", std::to_string(s.us.live_iters) + " iterators of a user-defined source were never destroyed");
 		mergeworld_destroy(w);
+		if (w.free_cb_wrong) res.fail("LEAK", "SOURCE-free-callback", "mtbl_source_destroy did not run the free callback of a user-defined source exactly once");
 		res.probes["sc-merger"]++;
 	}
 
